@@ -84,7 +84,12 @@ func (values SortValues) Serialize(buf *bytes.Buffer) {
 		case IntegerType, BooleanType:
 			serializeInteger(buf, value.Int64ToStr(val.Integer))
 		case FloatType:
-			serializeFloat(buf, value.Float64ToStr(val.Float, false))
+			if val.Float == 0 {
+				// the negative zero is equal to zero
+				serializeFloat(buf, "0")
+			} else {
+				serializeFloat(buf, value.Float64ToStr(val.Float, false))
+			}
 		case DatetimeType:
 			if val.datetimeSec == 0 && val.datetimeNsec == 0 {
 				serializeDatetimeFromUnixNano(buf, val.Datetime)
